@@ -42,6 +42,8 @@ structure MState (Out : Type) where
   cache : List (CKey × Out)
   /-- memo dicts held in instance `__dict__`s: key (site, arguments) -/
   dicts : List (List ((Nat × Args) × Out)) := []
+  /-- copies made once and handed out ever after: source object ↦ the kept copy -/
+  handed : List (Nat × Nat) := []
 
 inductive MOp where
   | new (cls : String) (p : Params)
@@ -87,6 +89,11 @@ def copyTarget (h : List Obj) (src : Nat) : CopyKind → Nat
   | .alias => src
   | _ => h.length
 
+/-- the same for a state (a copy kept from an earlier access is handed out again) -/
+def copyTargetS {Out : Type} (st : MState Out) (src : Nat) : CopyKind → Nat
+  | .once => (st.handed.lookup src).getD st.heap.length
+  | k => copyTarget st.heap src k
+
 section
 variable {Out : Type} (sites : List MemoSite) (F : Nat → (Read → Val) → Args → Out)
 
@@ -118,6 +125,10 @@ def stepM (st : MState Out) : MOp → MState Out × Option Out
     | none, _ => (st, none)
     | some _, .alias => (st, none)
     | some o, .shallow => ({ st with heap := st.heap ++ [o] }, none)      -- shares `o.memo`
+    | some o, .once =>
+      match st.handed.lookup src with
+      | some _ => (st, none)                                              -- the kept copy again
+      | none => ({ st with heap := st.heap ++ [o], handed := (src, st.heap.length) :: st.handed }, none)
     | some o, .deep =>                                                    -- a dict of its own
       ({ st with heap := st.heap ++ [{ o with memo := o.memo.map (fun _ => st.dicts.length) }],
                  dicts := st.dicts ++ [st.dicts.getD (o.memo.getD 0) []] }, none)
@@ -149,7 +160,7 @@ def outsM (st : MState Out) : List MOp → List (Option Out)
 
 end
 
-def initM {Out : Type} : MState Out := { heap := [], cache := [], dicts := [] }
+def initM {Out : Type} : MState Out := { heap := [], cache := [], dicts := [], handed := [] }
 
 /-- the most general body reading `reads`: it returns what it read and its arguments -/
 def freeBody (sites : List MemoSite) (k : Nat) (e : Read → Val) (x : Args) : List Val × Args :=
@@ -165,7 +176,7 @@ def siteOK (pub : String → Bool) (s : MemoSite) : Bool :=
   (!s.cached || s.reads.all (fun r => s.keyAttrs.contains r.attr || !pub r.attr)) &&
   (!s.cached || s.placement == .module)
 
-def copyOK (c : CopySite) : Bool := c.kind != .alias
+def copyOK (c : CopySite) : Bool := c.kind == .shallow || c.kind == .deep
 
 /-- index of a method of a class in a table (the table's length if absent) -/
 def memoIdx (sites : List MemoSite) (cls method : String) : Nat :=
@@ -663,5 +674,31 @@ def outsR (kind : ReturnKind) (pristine : Val) (st : RState) : List ROp → List
   | op :: ops => (stepR kind pristine st op).2 :: outsR kind pristine (stepR kind pristine st op).1 ops
 
 def returnOK (s : ReturnSite) : Bool := s.kind == .fresh
+
+/-! ## (e) attributes derived from caller-owned mutable objects at (re-)initialisation -/
+
+inductive DOp where
+  /-- the caller changes the parameters / adds a term to the chain -/
+  | mutate (v : Val)
+  /-- `initialize()` -/
+  | init
+  deriving Repr
+
+structure DState (Out : Type) where
+  source : Val
+  derived : Option Out
+
+def stepD {Out : Type} (guard : DerivedGuard) (f : Val → Out) (st : DState Out) : DOp → DState Out
+  | .mutate v => { st with source := v }
+  | .init =>
+    match guard, st.derived with
+    | .onlyIfUnset, some _ => st
+    | _, _ => { st with derived := some (f st.source) }
+
+def runD {Out : Type} (guard : DerivedGuard) (f : Val → Out) (st : DState Out) : List DOp → DState Out
+  | [] => st
+  | op :: ops => runD guard f (stepD guard f st op) ops
+
+def derivedOK (s : DerivedStore) : Bool := s.guard == .always
 
 end OQuPyVerif.Aliasing
